@@ -21,7 +21,7 @@ func TestMain(m *testing.M) {
 			"Histories cover every unwrap path (cache hit and miss, rotation, duplicate-key fallback, decrypt of old records, restarts). Oracle after every public call: every retained slice whose content was key material "+
 			"(its fingerprint was later used as an AEAD key or given to the secret factory) is all zero, except the call's own result (identified by backing array). "+
 			"(2) the same check under every single injected fault position (metastore/KMS call, AEAD call, secret allocation, a key secret that cannot be opened for reading, a key secret that cannot be re-protected after its callback ran) of the cold/warm/rotating encrypt and decrypt scenarios - in particular failures after the plaintext exists. "+
-			"(3) both AWS KMS plugins over fake regional clients that retain the data-key Plaintext slices they return, for EncryptKey and DecryptKey, with per-region failures; plus a healthy but slow preferred region (1.3 s real time): once the call has returned and everything it started has finished, only the copy returned to the caller is left; a context cancelled while a region is still wrapping; with a debug logger installed nothing the plugins log contains data-key plaintext (raw / hex / base64 / decimal list), also when another region has to serve; an AEAD that panics while the system key is sealed (the caller recovers). "+
+			"(3) both AWS KMS plugins over fake regional clients that retain the data-key Plaintext slices they return, for EncryptKey and DecryptKey, with per-region failures, the keys named by key ARN and by alias ARN (responses always name the key ARN); plus a healthy but slow preferred region (1.3 s real time): once the call has returned and everything it started has finished, only the copy returned to the caller is left; a context cancelled while a region is still wrapping; with a debug logger installed nothing the plugins log contains data-key plaintext (raw / hex / base64 / decimal list), also when another region has to serve; an AEAD that panics while the system key is sealed (the caller recovers). "+
 			"One evaluation = one history / fault run / plugin case. Non-trivial = at least one retained key buffer was inspected; distinct = distinct (path class set, cache class) or (scenario, fault) or plugin case",
 		"retention happens at the AEAD/KMS/SecretFactory interfaces: buffers the SDK allocates and never passes through them are out of sight", "wipe = every byte zero when the public call has returned")
 }
